@@ -18,17 +18,18 @@ import (
 )
 
 type acase struct {
-	ID       string `json:"id"`
-	HasBasic bool   `json:"hasBasic"`
-	User     string `json:"user"` // hex
-	Pass     string `json:"pass"`
-	HasToken bool   `json:"hasToken"`
-	Token    string `json:"token"`
-	Base     string `json:"base"`
-	Method   string `json:"method"`
-	Path     string `json:"path"`
-	HasHdr   bool   `json:"hasHdr"`
-	Hdr      string `json:"hdr"`
+	ID       string     `json:"id"`
+	HasBasic bool       `json:"hasBasic"`
+	User     string     `json:"user"` // hex
+	Pass     string     `json:"pass"`
+	HasToken bool       `json:"hasToken"`
+	Token    string     `json:"token"`
+	Base     string     `json:"base"`
+	Method   string     `json:"method"`
+	Extra    [][]string `json:"extra,omitempty"` // [canonical header name, hex value]
+	Path     string     `json:"path"`
+	HasHdr   bool       `json:"hasHdr"`
+	Hdr      string     `json:"hdr"`
 }
 
 func unhex(s string) string {
@@ -83,6 +84,13 @@ func runOne(c acase, lg logger.Logger) (res string) {
 	req := httptest.NewRequest(c.Method, "http://x"+unhex(c.Path), nil)
 	if c.HasHdr {
 		req.Header["Authorization"] = []string{unhex(c.Hdr)}
+	}
+	// other request headers (CORS pre-flight markers, proxy headers, look-alike credential headers…): none of them
+	// is a way of presenting a configured secret
+	for _, kv := range c.Extra {
+		if len(kv) == 2 {
+			req.Header[kv[0]] = append(req.Header[kv[0]], unhex(kv[1]))
+		}
 	}
 	rec := httptest.NewRecorder()
 	h.ServeHTTP(rec, req)
